@@ -42,7 +42,7 @@ def gen_synthetic(run, i):
     model = MODELS[i % 3]
     # (the API accepts any threshold; R2 of a poor fit is negative, of an exact fit 1.0)
     # 1e-05: a threshold whose repr has no decimal point (the FUSE_R2_INPAINT_THRESH tag then is not a YAML float - finding D26)
-    thresh = rng.choice([0.25, 0.25, 0.5, 0.0, None, -0.3, 1.5, 1.0, 1e-05]) if model == 'gain_offset' else 0.25
+    thresh = [0.25, 1.5, None, 1e-05, -0.3, 1.0, 0.5, 0.0][(i // 3) % 8] if model == 'gain_offset' else 0.25   # (stratified: all within 24 cases)
     if model == 'gain_offset' and i % 9 == 2:
         thresh = 1.0          # the top of the documented range: pixels with R2 exactly 1.0 (an exact fit) are NOT below it
     data = np.zeros((3 * n, h, w), dtype='float32')
